@@ -17,6 +17,17 @@ enum Msg {
 fn main() {
     let args: Vec<String> = std::env::args().collect();
     let driver = args[1].clone();
+    if driver == "@literals" {
+        // the literals of /repo/src as the dictionary sees them, one JSON string per line
+        // (harness/baseline_literals.txt was written with this from the pinned tree)
+        for fl in &pkgsrc_conform::dict::dict().all { println!("{}", serde_json::to_string(fl).unwrap()); }
+        return;
+    }
+    if driver == "@novel" {
+        for l in &pkgsrc_conform::dict::dict().novel { println!("{}", serde_json::to_string(l).unwrap()); }
+        return;
+    }
+    pkgsrc_conform::dict::set_focus(&driver);
     let seed: u64 = args[2].parse().unwrap();
     let n: u64 = args[3].parse().unwrap();
     let out = args[4].clone();
